@@ -5,7 +5,8 @@ import json
 import os
 import random
 
-from ..model import M, S
+from ..model import M, NONE, S
+from .. import gen
 import subprocess
 import sys
 
@@ -23,7 +24,7 @@ def worker_main(argv):
     from harness.core import setup_import_path
 
     setup_import_path()
-    from harness.props import c01, c05, c10, c14, c15
+    from harness.props import c01, c05, c10, c14, c15, c17
 
     cases = json.load(open(argv[0]))
     variant = int(argv[2])
@@ -56,6 +57,15 @@ def worker_main(argv):
             rec = c10.execute(case)
             obs = {k: rec["out"].get(k) for k in ("k", "dims", "shape", "flat", "cls")}
             full = None
+        elif fam == "c17":
+            # the same links listed in another order: the accept / refuse outcome may not change
+            order = list(range(len(case["table"])))
+            if variant:
+                rng.shuffle(order)
+            case["order"] = order
+            rec = c17.execute(case)
+            obs = {"k": rec["out"]["k"]}
+            full = None
         elif fam == "c14":
             rec = [r for r in c14.execute(case) if r["ev"] == "Autoparse"][0]
             obs = {"k": rec["out"]["k"], "coords": rec["out"].get("coords"), "axis_order": rec["out"].get("axis_order")}
@@ -74,7 +84,7 @@ def worker_main(argv):
 
 
 def gen_calls(rng, thorough):
-    from . import c01, c05, c10, c14, c15
+    from . import c01, c05, c10, c14, c15, c17
     from .. import model
 
     calls = []
@@ -99,6 +109,34 @@ def gen_calls(rng, thorough):
         if len(c["axes"]) == 3 and len(c["reg"]) >= 3:
             add("c10", c)
             k += 1
+    # operators weighted by a metric over three axes for which only competing partitions are registered
+    k = 0
+    while k < (200 if thorough else 40):
+        grid = c10.rand_grid(rng, naxes=3, nmax=2)
+        axn = [a["name"] for a in grid["axes"]]
+        axd = {a["name"]: a for a in grid["axes"]}
+        dims_shape = [[dict(axd[a]["pos"])["center"], axd[a]["n"]] for a in axn]
+        rng.shuffle(dims_shape)
+        reg = c10.subset_registry(rng, grid, [d for d, _ in dims_shape])
+        pairs = [e for e in reg if len(e["key"]) == 2]
+        if len(pairs) < 2:
+            continue
+        a = rng.choice(axn)
+        to = next(p for p, _ in axd[a]["pos"] if p != "center")
+        w = list(axn)
+        rng.shuffle(w)
+        c = {"id": n, "ev": "Weighted", "op": rng.choice(["diff", "interp"]), "grid": grid, "reg": reg,
+             "args": {"data": gen.rand_data(rng, dims_shape, 1, 6), "axis": [a], "to": S(to), "boundary": S("extend"), "fill_value": NONE,
+                      "weight": w, "weight_spelling": rng.choice(["list", "list", "dict"])}}
+        add("c10", c)
+        k += 1
+    # face tables, consistent or not (single edits of consistent ones), whatever the order their links are listed in
+    pool17 = []
+    for nf_, axes_, entries_ in c17.base_tables(rng):
+        pool17 += [(nf_, axes_, entries_)] + [(nf_, axes_, t) for t in c17.edits(entries_, nf_, axes_)]
+    for nf_, axes_, t in rng.sample(pool17, min(len(pool17), 600 if thorough else 120)):
+        if len(t) >= 2:
+            add("c17", {"id": n, "ev": "Construct", "nfaces": nf_, "axes": axes_, "table": t, "nfacedims": 1, "facedim_in_ds": True, "facecoord": True})
     for _ in range(300 if thorough else 50):
         c = c14.gen_case(rng, n)
         c["user_coords"] = False
@@ -193,7 +231,7 @@ def run(ctx):
     ctx.evaluations = len(recs)
     ctx.extra["interpreters"] = K
     ctx.extra["set_iteration_orders_seen"] = {"2 names": len(orders[0]), "3 names": len(orders[1]), "X,Y,Z": len(orders[2])}
-    ctx.extra["calls_by_family"] = {f: sum(1 for c in calls if c["family"] == f) for f in ("c05", "c10", "c14", "c15", "c01")}
+    ctx.extra["calls_by_family"] = {f: sum(1 for c in calls if c["family"] == f) for f in ("c05", "c10", "c14", "c15", "c17", "c01")}
     if len(orders[0]) < 2:
         ctx.vacuous.append("all interpreters iterated a 2-element name set in the same order")
 
